@@ -158,6 +158,7 @@ CORPUS = [
     "before <p>middle</p> after", "<p>test<h3>this is a h3</h3>not closing p", "before {{ var }} after",
     "<p>test<h3>this is a h3</h3></p>", "<p>test <h3>this is a h3 closing p</p>", "{{", "}}", "<", ">", "</>", "<>", "< >x< / >",
     "{{ x, }}", "{{ , date }}", "{{ x, date( }}", "{{ x, nope }}", "$t()", "$t(a.b)", "$t(ns:a.b, {\"count\": 3})", "$t(", "$t(a",
+    "<b>$t(k)</b>", "a <b>x $t(k, {\"v\": \"<i>z</i>\"}) y</b> c", "$t(k, {\"v\": \"<b>z</b>\"}) <b>w</b>", "<b>x</b> $t(k) <b>$t(j)</b>",
     "{{ type }}", "<if>x</if>", "<a-b>x</a-b>", "{{a}}<b>{{c}}</b>{{d}}", "<b>x</b><b>y</b></b>", "</b><b>x</b>",
 ]
 
